@@ -32,7 +32,8 @@ def wasm_corpus(repo):
 
 
 def run_model(runner, lines, timeout=1200):
-    p = subprocess.run([runner], input=("\n".join(lines) + "\n").encode(), stdout=subprocess.PIPE,
+    p = subprocess.run(["sh", "-c", "ulimit -s 1000000 2>/dev/null; exec \"$0\"", runner],
+                       input=("\n".join(lines) + "\n").encode(), stdout=subprocess.PIPE,
                        stderr=subprocess.STDOUT, timeout=timeout)
     return p.returncode, p.stdout.decode("utf-8", "replace").splitlines()
 
